@@ -199,6 +199,14 @@ def corpus():
                    ("tuple", ("cls", 0), ("cls", 3)), ("ann", ("list", ("tuple", ("cls", 1), ("cls", 2))), ("listSize", 1, 2))):
             out.append(gram.Spec(base + [C("P", False, 0, [("p", ft)])], 0, [1, 2, 3, 4], expansion))
             out.append(gram.Spec(base + [C("S", False, None, [("p", ft), ("q", ("cls", 0))])], 4, [1, 2, 3, 4], expansion))
+    # production weights, including weight 0 on the strictly shallowest production of a non-terminal: the depth-limited deciders do
+    # not read weights, the minimum depth the grammar reports is the one creation can meet
+    for expansion in (False, True):
+        out.append(gram.Spec([C("A0", True, None), C("Leaf", False, 0, [], weight=0), C("Wrap", False, 0, [("e", ("cls", 0))], weight=2),
+                              C("Pair", False, 0, [("l", ("cls", 0)), ("r", ("cls", 0))], weight=1)], 0, [1, 2, 3], expansion))
+        out.append(gram.Spec([C("A0", True, None), C("A1", True, 0), C("Lit", False, 1, [("k", ("ann", "int", ("intRange", 0, 2)))], weight=0),
+                              C("Neg", False, 1, [("e", ("cls", 0))], weight=3), C("Add", False, 0, [("l", ("cls", 0)), ("r", ("cls", 1))], weight=0.5),
+                              C("S", False, None, [("a", ("cls", 0)), ("b", ("cls", 1))])], 5, [2, 3, 4, 5, 1], expansion))
     return out
 
 
